@@ -88,3 +88,110 @@ Proof.
     + apply (der_alt sbql HCC [T tk_GT; NT HC]); [rewrite R2; cbn; tauto|].
       apply ders_T. rewrite <- (app_nil_r (map _ _)). apply ders_NT; [apply IH; exact Wh | apply ders_nil].
 Qed.
+
+(* ---- the converse: every derivation of HAVING_CLAUSE in the generated grammar is one of the trees ------------------ *)
+Lemma code_inj : forall a b, code a = code b -> a = b.
+Proof. intros [] [] H; try reflexivity; vm_compute in H; discriminate. Qed.
+
+Lemma codes_cons_inv : forall ts x w, codes ts = x :: w ->
+  exists t ts', ts = t :: ts' /\ code (tk t) = x /\ codes ts' = w.
+Proof. intros [|t ts'] x w H; cbn in H; [discriminate|]. injection H as H1 H2. eauto. Qed.
+
+Lemma codes_app_inv : forall ts w1 w2, codes ts = w1 ++ w2 ->
+  exists t1 t2, ts = t1 ++ t2 /\ codes t1 = w1 /\ codes t2 = w2.
+Proof.
+  intros ts w1 w2 H. unfold codes in H. apply map_eq_app in H. destruct H as (l1 & l2 & -> & H1 & H2). eauto.
+Qed.
+
+Section Inv.
+  Variable g : grammar.
+  Lemma ders_nil_inv : forall w, ders g [] w -> w = [].
+  Proof. intros w H. inversion H. reflexivity. Qed.
+  Lemma ders_T_inv : forall t es w, ders g (T t :: es) w -> exists w', w = t :: w' /\ ders g es w'.
+  Proof. intros t es w H. inversion H; subst. eauto. Qed.
+  Lemma ders_NT_inv : forall s es w, ders g (NT s :: es) w ->
+    exists w1 w2, w = w1 ++ w2 /\ der g s w1 /\ ders g es w2.
+  Proof. intros s es w H. inversion H; subst. eauto. Qed.
+  Lemma alt_T_NT : forall x s w, ders g [T x; NT s] w -> exists w1, w = x :: w1 /\ der g s w1.
+  Proof.
+    intros x s w H. apply ders_T_inv in H. destruct H as (w' & -> & H).
+    apply ders_NT_inv in H. destruct H as (w1 & w2 & -> & D & H). apply ders_nil_inv in H. subst.
+    rewrite app_nil_r. eauto.
+  Qed.
+  Lemma alt_paren : forall l s1 r s2 w, ders g [T l; NT s1; T r; NT s2] w ->
+    exists w1 w2, w = l :: w1 ++ r :: w2 /\ der g s1 w1 /\ der g s2 w2.
+  Proof.
+    intros l s1 r s2 w H. apply ders_T_inv in H. destruct H as (w' & -> & H).
+    apply ders_NT_inv in H. destruct H as (w1 & w2 & -> & D1 & H).
+    apply alt_T_NT in H. destruct H as (w3 & -> & D2). eauto.
+  Qed.
+End Inv.
+
+Lemma der_is_hc : forall n,
+  (forall ts, (length ts <= n)%nat -> der sbql HC (codes ts) -> exists h, wf_hc h = true /\ yield h = ts) /\
+  (forall ts, (length ts <= n)%nat -> der sbql HCC (codes ts) -> exists c, wf_comp c = true /\ yield_comp c = ts).
+Proof.
+  destruct having_rules_generated as (R1 & R2 & _).
+  (* one operand alternative *)
+  assert (OP : forall n k,
+    (forall ts, (length ts <= n)%nat -> der sbql HCC (codes ts) -> exists c, wf_comp c = true /\ yield_comp c = ts) ->
+    is_operand k = true ->
+    forall ts, (length ts <= S n)%nat -> ders sbql [T (code k); NT HCC] (codes ts) ->
+    exists h, wf_hc h = true /\ yield h = ts).
+  { intros n k IH2 Hk ts L Hd. apply alt_T_NT in Hd. destruct Hd as (w1 & E & D1).
+    apply codes_cons_inv in E. destruct E as (t0 & ts0 & -> & Ht & Hw). apply code_inj in Ht.
+    destruct (IH2 ts0) as (c & Wc & Yc); [cbn in L; Lia.lia | rewrite Hw; exact D1|].
+    exists (HOperand t0 c). split; [cbn; rewrite Ht, Hk, Wc; reflexivity | cbn; rewrite Yc; reflexivity]. }
+  (* one composite alternative *)
+  assert (CO : forall n k,
+    (forall ts, (length ts <= n)%nat -> der sbql HC (codes ts) -> exists h, wf_hc h = true /\ yield h = ts) ->
+    is_compop k = true ->
+    forall ts, (length ts <= S n)%nat -> ders sbql [T (code k); NT HC] (codes ts) ->
+    exists c, wf_comp c = true /\ yield_comp c = ts).
+  { intros n k IH1 Hk ts L Hd. apply alt_T_NT in Hd. destruct Hd as (w1 & E & D1).
+    apply codes_cons_inv in E. destruct E as (t0 & ts0 & -> & Ht & Hw). apply code_inj in Ht.
+    destruct (IH1 ts0) as (h & Wh & Yh); [cbn in L; Lia.lia | rewrite Hw; exact D1|].
+    exists (COp t0 h). split; [cbn; rewrite Ht, Hk, Wh; reflexivity | cbn; rewrite Yh; reflexivity]. }
+  induction n as [|n [IH1 IH2]].
+  - split.
+    + intros ts L D. destruct ts; [|cbn in L; Lia.lia]. cbn in D.
+      inversion D as [s a w Ha Hd]; subst. rewrite R1 in Ha. cbn in Ha.
+      repeat (destruct Ha as [<-|Ha]; [inversion Hd|]). contradiction.
+    + intros ts L D. destruct ts; [|cbn in L; Lia.lia]. exists CEmpty. split; reflexivity.
+  - split.
+    + intros ts L D. inversion D as [s a w Ha Hd]. subst s w. rewrite R1 in Ha. cbn [In] in Ha.
+      destruct Ha as [<-|[<-|[<-|[<-|[<-|[<-|[<-|[]]]]]]]].
+      * apply (OP n KBinding IH2 eq_refl ts L Hd).
+      * apply (OP n KNode IH2 eq_refl ts L Hd).
+      * apply (OP n KLiteral IH2 eq_refl ts L Hd).
+      * apply (OP n KTime IH2 eq_refl ts L Hd).
+      * apply (OP n KPredicate IH2 eq_refl ts L Hd).
+      * (* NOT *)
+        apply alt_T_NT in Hd. destruct Hd as (w1 & E & D1).
+        apply codes_cons_inv in E. destruct E as (t0 & ts0 & -> & Ht & Hw).
+        change tk_NOT with (code KNot) in Ht. apply code_inj in Ht.
+        destruct (IH1 ts0) as (h & Wh & Yh); [cbn in L; Lia.lia | rewrite Hw; exact D1|].
+        exists (HNot t0 h). split; [cbn; rewrite Ht, Wh; reflexivity | cbn; rewrite Yh; reflexivity].
+      * (* ( clause ) COMPOSITE *)
+        apply alt_paren in Hd. destruct Hd as (w1 & w2 & E & D1 & D2).
+        apply codes_cons_inv in E. destruct E as (l & ts0 & -> & Hl & E).
+        apply codes_app_inv in E. destruct E as (t1 & t2 & -> & E1 & E2).
+        apply codes_cons_inv in E2. destruct E2 as (r & t3 & -> & Hr & E3).
+        change tk_LEFT_PARENT with (code KLPar) in Hl. apply code_inj in Hl.
+        change tk_RIGHT_PARENT with (code KRPar) in Hr. apply code_inj in Hr.
+        cbn [length] in L. rewrite app_length in L. cbn [length] in L.
+        destruct (IH1 t1) as (h & Wh & Yh); [Lia.lia | rewrite E1; exact D1|].
+        destruct (IH2 t3) as (c & Wc & Yc); [Lia.lia | rewrite E3; exact D2|].
+        exists (HParen l h r c). split; [cbn; rewrite Hl, Hr, Wh, Wc; reflexivity | cbn; rewrite Yh, Yc; reflexivity].
+    + intros ts L D. inversion D as [s a w Ha Hd]. subst s w. rewrite R2 in Ha. cbn [In] in Ha.
+      destruct Ha as [<-|[<-|[<-|[<-|[<-|[<-|[]]]]]]].
+      * apply (CO n KAnd IH1 eq_refl ts L Hd).
+      * apply (CO n KOr IH1 eq_refl ts L Hd).
+      * apply (CO n KEq IH1 eq_refl ts L Hd).
+      * apply (CO n KLt IH1 eq_refl ts L Hd).
+      * apply (CO n KGt IH1 eq_refl ts L Hd).
+      * apply ders_nil_inv in Hd. destruct ts; [|discriminate]. exists CEmpty. split; reflexivity.
+Qed.
+
+Theorem grammar_derivation_is_tree : forall ts, der sbql HC (codes ts) -> exists h, wf_hc h = true /\ yield h = ts.
+Proof. intros ts D. destruct (der_is_hc (length ts)) as [H _]. apply H; [Lia.lia | exact D]. Qed.
